@@ -12,7 +12,7 @@ M = [
  ("C01-voting-reward-no-vault-debit", "C01", "consensus/impl/dpos/dpos.go", "\terr = state.SendBalance(vaultAccountState, winnerAccountState, reward)", "\twinnerAccountState.AddBalance(reward)"),
  ("C01-unstake-no-system-debit", "C01", "contract/system/staking.go", "\tif err := state.SendBalance(receiver, sender, balanceAdjustment); err != nil {\n\t\treturn nil, err\n\t}", "\tsender.AddBalance(balanceAdjustment)"),
  ("C02-export-unsorted", "C02", "state/statedb/statebuffer.go", "\tsort.Slice(bufs, func(i, j int) bool {", "\tif false {\n\t\tsort.Slice(bufs, func(i, j int) bool { return false })\n\t}\n\t_ = (func(i, j int) bool {"),
- ("C03-no-rollback-on-rejected-tx", "C03", "chain/chainhandle.go", "\t\t\tif err2 := bState.Rollback(blockSnap); err2 != nil {", "\t\t\tif err2 := error(nil); err2 != nil {"),
+ ("C03-no-rollback-on-rejected-tx", "C03", "chain/chainhandle.go", "\t\t\tif err2 := bState.Rollback(blockSnap); err2 != nil {", "\t\t\t_ = blockSnap\n\t\t\tif err2 := error(nil); err2 != nil {"),
  ("C03-no-consensus-restore-after-failed-block", "C03", "chain/chainhandle.go", "\tif err := ex.execute(); err != nil {\n\t\tcs.Update(bestBlock)\n\t\treturn err\n\t}", "\tif err := ex.execute(); err != nil {\n\t\treturn err\n\t}"),
  ("C04-signmatch-skipped", "C04", "chain/chainhandle.go", "\t\tif !bytes.Equal(txAcc, account) {\n\t\t\treturn types.ErrSignNotMatch\n\t\t}", "\t\t_ = txAcc"),
  ("C04-chainid-not-checked", "C04", "types/transaction.go", "\tif !bytes.Equal(chainidhash, tx.GetTx().GetBody().GetChainIdHash()) {\n\t\treturn ErrTxInvalidChainIdHash\n\t}", ""),
@@ -21,7 +21,7 @@ M = [
  ("C05-txindex-not-written", "C05", "chain/chaindb.go", "\tfor i, txEntry := range txs {\n\t\tif err := cdb.addTx(dbTx, txEntry, blockHash, i); err != nil {", "\tfor i, txEntry := range txs {\n\t\tif i%2 == 1 {\n\t\t\tcontinue\n\t\t}\n\t\tif err := cdb.addTx(dbTx, txEntry, blockHash, i); err != nil {"),
  ("C05-abandoned-tx-index-kept", "C05", "chain/reorg.go", "\t\tbulk.Delete(oldTx.Hash)", "\t\t_ = oldTx"),
  ("C06-marker-deleted-before-mapping-swap", "C06", "chain/reorg.go", "\tif err := reorg.swapChainMapping(); err != nil {\n\t\treturn err\n\t}", "\treorg.marker.delete()\n\tif err := reorg.swapChainMapping(); err != nil {\n\t\treturn err\n\t}"),
- ("C06-recover-latest-not-restored", "C06", "chain/recover.go", "\tbulk.Set(dbkey.LatestBlock(), types.BlockNoToBytes(rm.BrBestNo))\n", ""),
+ ("C06-recover-latest-not-restored", "C06", "chain/recover.go", "\tbulk.Set(dbkey.LatestBlock(), types.BlockNoToBytes(rm.BrBestNo))\n", "\t_ = dbkey.LatestBlock()\n"),
  ("C07-reorg-on-equal-length", "C07", "chain/reorg.go", "\tisNeed := latest < blockNo", "\tisNeed := latest <= blockNo"),
  ("C07-lib-veto-off-by-one", "C07", "h/rig", None, None),
  ("C08-majority-lowered", "C08", "consensus/impl/dpos/lib.go", "\t\treturn bpCount*2/3 + 1", "\t\treturn bpCount * 2 / 3"),
